@@ -62,8 +62,10 @@ class LowerLinalgBody(RewritePattern):
         if not isinstance(kernel_op := linalg_op.body.block.first_op, Parsable):
             return
 
-        # only works for non-fused kernels (only 1 kernel op)
-        if not isinstance(kernel_op.next_op, linalg.YieldOp):
+        # only works for non-fused kernels (only 1 kernel op), whose result is what the body yields
+        if not isinstance(yield_op := kernel_op.next_op, linalg.YieldOp):
+            return
+        if tuple(yield_op.operands) != tuple(kernel_op.results):
             return
 
         # the equivalent region computes on its block arguments in order, so that
